@@ -183,7 +183,7 @@ impl ASCAError for RuleRuntimeError {
             Self::MetathSyllSegment       (a, b) |
             Self::UnevenSet               (a, b) => (
                    " ".repeat(a.start) + &"^".repeat(a.end - a.start) 
-                + &" ".repeat(b.start) + &"^".repeat(b.end - b.start) + "\n",
+                + &" ".repeat(b.start.saturating_sub(a.end)) + &"^".repeat(b.end - b.start) + "\n",
                 a.group,
                 a.line
             ),
